@@ -67,6 +67,21 @@ def create(spec: dict):
         types = tuple(pk.TYPE_CLASSES[t] for t in spec['types'])
         return State(autos, DECKS[spec['deck']], types, streets, BettingStructure(spec['structure']), spec['trim'],
                      spec['antes'], spec['blinds'], spec['bringin'], spec['stacks'], spec['n'], **kw)
+    if spec.get('via_phh'):
+        # the game behind a hand-history variant code (C11: the codes map to the same games)
+        from pokerkit import HandHistory
+        kind = VARIANTS[v][1]
+        f = dict(variant=v, antes=list(spec['antes']), starting_stacks=list(spec['stacks']), actions=[], ante_trimming_status=spec['trim'],
+                 automations=autos)
+        if kind == 'stud':
+            f.update(bring_in=spec['bringin'], small_bet=spec['sb'], big_bet=spec['bb'])
+        elif kind == 'sb':
+            f.update(blinds_or_straddles=list(spec['blinds']), small_bet=spec['sb'], big_bet=spec['bb'])
+        else:
+            f.update(blinds_or_straddles=list(spec['blinds']), min_bet=spec['bb'])
+        hh = HandHistory(**f)
+        Last.game = hh.create_game()
+        return hh.create_state()
     cls = getattr(pg, VARIANTS[v][0])
     kind = VARIANTS[v][1]
     if kind == 'mb':
@@ -87,7 +102,7 @@ class Last:
 
 
 def random_spec(rng: random.Random, *, variants=None, autos='random', mode=None, max_n=None, stacks='mixed',
-                boards=(1, 1, 1, 2), rake_p=0.15, ante_p=0.5, straddle_p=0.2, no_autos=()) -> dict:
+                boards=(1, 1, 1, 2), rake_p=0.15, ante_p=0.5, straddle_p=0.2, no_autos=(), via_phh=False) -> dict:
     v = rng.choice(variants or list(VARIANTS))
     fam = VARIANTS[v][2]
     kind = VARIANTS[v][1]
@@ -117,6 +132,10 @@ def random_spec(rng: random.Random, *, variants=None, autos='random', mode=None,
         spec['autos'] = list(autos)
     spec['autos'] = [a for a in spec['autos'] if a not in no_autos]
     spec['mode'] = mode or rng.choice('TC')
+    if via_phh:
+        spec['via_phh'] = True
+        spec['mode'] = 'C'
+        spec['autos'] = [a for a in spec['autos'] if a != 'Card burning']
     # antes
     antes = [0] * n
     trim = False
